@@ -50,7 +50,7 @@ class C33(Property):
     drivers = ["Drivers/C33.lean"]
     translators = [tagguards.generate]
     rule = ("compare_tags: pairs of tags (exhaustive depth<=2 comps 0..12 in quick, depth<=3 in thorough, plus random "
-            "deep multi-digit tags); get_tag: prefix chains (ordered, reversed, shuffled sub-chains, repeats); job names: "
+            "deep multi-digit tags); sorted(key=cmp_to_key(compare_tags)) on random multisets in two arrival orders; get_tag: prefix chains (ordered, reversed, shuffled sub-chains, repeats); job names: "
             "random step paths x tags. Every case runs on the real function, on the Lean model (driver) and against the "
             "property's own spec. Non-trivial = distinct (operation, arguments) with depth>=2 or a component >=10.")
     trusted_base = [
@@ -60,7 +60,7 @@ class C33(Property):
     ]
     technique = "Lean 4 theorems (total-order laws, exact get_tag characterisation, job-name split) + ast translator of the guards + differential correspondence on exhaustive small tags"
     level_text = ("grade A: unbounded theorems about compare_tags (antisymmetry, zero-iff-equal, transitivity, totality, depth-first, "
-                  "numeric component order), an exact iff-characterisation of get_tag on every prefix chain (full statement proved false by a "
+                  "numeric component order; sorting by it is arrival-order independent for every multiset of tags), an exact iff-characterisation of get_tag on every prefix chain (full statement proved false by a "
                   "witness, recorded as known finding), and job-name splitting for every normalised step path; guards regenerated from the source "
                   "on every run, model compared with the code on ~40k cases")
     level_note = ("Lean kernel, axioms within {propext, Classical.choice, Quot.sound}; trusts the tagguards extractor, the string<->component-list "
@@ -122,6 +122,24 @@ class C33(Property):
             if _sign(ab) != -_sign(ba) or (ab == 0) != (a == b) or (ab < 0 and bc < 0 and not ac < 0):
                 ctx.fail("compare_tags:not-a-total-order", f"order laws fail on {a!r},{b!r},{c!r}",
                          {"op": "order-laws", "a": a, "b": b, "c": c})
+        # ---- sorted(..., key=cmp_to_key(compare_tags)) (step.py: gather, loop outputs, scatter from_tags) ----
+        from functools import cmp_to_key
+        for _ in range(400 if ctx.tier == "quick" else 4000):
+            ms = [rng.choice(pool) for _ in range(rng.randint(0, 14))]
+            ms += [rng.choice(ms) for _ in range(rng.randint(0, 3)) if ms]          # duplicates
+            rng.shuffle(ms)
+            real = sorted(ms, key=cmp_to_key(sfu.compare_tags))
+            other = list(ms)
+            rng.shuffle(other)
+            real2 = sorted(other, key=cmp_to_key(sfu.compare_tags))
+            spec = sorted(ms, key=lambda t: (t.count("."), [int(c) for c in t.split(".")]))
+            ctx.case({"op": "sort_tags", "tags": ms, "real": real}, ("sort", tuple(ms)) if len(ms) > 1 and nontriv(*ms) else None, "sort")
+            if real != spec or real2 != spec:
+                ctx.fail("compare_tags:sort-order", f"sorted({ms}) by compare_tags = {real} / {real2} (reshuffled), spec {spec}",
+                         {"op": "sort_tags", "tags": ms, "other": other})
+            lines.append(("sort " + " ".join(ms)).strip())
+            expect.append(" ".join(real))
+            meta.append(("sorted-by-compare_tags", ms))
         # ---- get_tag on prefix chains ----
         chain_src = tags if len(tags) <= 2500 else (tags[:182] + rng.sample(tags, 1500))
         for chain in itertools.chain([[]], _chains(rng, chain_src + deep[:200])):
@@ -174,6 +192,13 @@ class C33(Property):
                   " spec sign:", _spec_cmp(r["a"], r["b"]))
             if _sign(sfu.compare_tags(r["a"], r["b"])) != _spec_cmp(r["a"], r["b"]):
                 ctx.fail("compare_tags:order", "still fails", r)
+        elif r.get("op") == "sort_tags":
+            from functools import cmp_to_key
+            spec = sorted(r["tags"], key=lambda t: (t.count("."), [int(c) for c in t.split(".")]))
+            got = [sorted(x, key=cmp_to_key(sfu.compare_tags)) for x in (r["tags"], r.get("other") or r["tags"])]
+            print("real:", got, " spec:", spec, " model:", ctx.lean("Drivers/C33.lean", ["sort " + " ".join(r["tags"])])[0])
+            if any(g != spec for g in got):
+                ctx.fail("compare_tags:sort-order", "still fails", r)
         elif r.get("op") == "get_tag":
             real = sfu.get_tag([_T(t) for t in r["chain"]])
             print("real:", real, " model:", ctx.lean("Drivers/C33.lean", ["gettag " + " ".join(r["chain"])])[0])
